@@ -435,6 +435,39 @@ def c15_g(run, fx):
                      "%s:%s" % (b.file, b.line))
 
 
+def c15_h(run, fx):
+    rule = "C15-h"
+    run.rule(rule, "CFF/CFF2 integer operands are written in the ranges the readers decode (CFF spec table 3, Type 2 charstring numbers): one "
+                   "byte for -107..=107, two bytes for 108..=1131 and -1131..=-108, otherwise the 16-bit (and, in DICTs, 32-bit) forms: the set of "
+                   "range bounds compared in <cff::Operand as WriteBinary>::write and <cff2::StackValue as WriteBinary>::write is exactly "
+                   "{-1131, -108, -107, 107, 108, 1131} (plus i16::MIN/MAX where the 16-bit form is chosen)")
+    want = {("Ge", -1131), ("Ge", -107), ("Ge", 108), ("Le", -108), ("Le", 107), ("Le", 1131)}
+    opt = {("Ge", -32768), ("Le", 32767)}
+    n = 0
+    for b in fx.bodies:
+        if b.kind == "Closure" or not (b.path.startswith("<cff::Operand as binary::write::WriteBinary") or b.path.startswith("<cff::cff2::StackValue as binary::write::WriteBinary")):
+            continue
+        n += 1
+        prov = sym.Prov(b)
+        ks = set()
+        for tb, fb, op, x, y, sw in guards.branch_conditions(b, prov):
+            xs, ys = sym.strip(x), sym.strip(y)
+            if ys[0] == "c" and isinstance(ys[1], int) and not isinstance(ys[1], bool):
+                ks.add((op, ys[1]))
+            if xs[0] == "c" and isinstance(xs[1], int) and not isinstance(xs[1], bool):
+                ks.add((guards.CMP_FLIP[op], xs[1]))
+        ks = {k for k in ks if k[0] in ("Ge", "Le", "Gt", "Lt")}
+        extra = ks - want - opt
+        missing = want - ks
+        if not extra and not missing:
+            run.ok(rule, "%s: integer ranges -1131..=-108, -107..=107, 108..=1131" % b.path)
+        else:
+            run.fail(rule, "intranges:%s" % b.root, "%s: the integer encoding ranges differ from the specification (unexpected bounds %s, missing %s): a value "
+                     "at the boundary is written in a form that decodes to another number" % (b.path, sorted(extra), sorted(missing)), "%s:%s" % (b.file, b.line))
+    if n < 2:
+        run.anchor_missing(rule, "<cff::Operand as WriteBinary>::write and <cff2::StackValue as WriteBinary>::write (found %d)" % n)
+
+
 def check(run, fx, tier, floors=True):
     c15_a(run, fx)
     c15_b(run, fx, floors)
@@ -445,3 +478,5 @@ def check(run, fx, tier, floors=True):
         c15_f(run, fx)
     if floors or fx.adt("tables::glyf::CompositeGlyphs") is not None:
         c15_g(run, fx)
+    if floors or fx.adt("cff::Operand") is not None:
+        c15_h(run, fx)
